@@ -68,6 +68,10 @@ def step (cfg : Cfg) (st : St) : Event → Except Err (St × Stream)
       else pure (st, [])
     | none => pure (st, [.end_ tag])
   | .comment _ => pure (st, [])
+  | .pi target data =>
+    -- `kind is PI and ('>' in data[0] or '>' in data[1])`: dropped
+    if List.contains target '>' || List.contains data '>' then pure (st, [])
+    else pure (st, if st.waiting.isNone then [.pi target data] else [])
   | e => pure (st, if st.waiting.isNone then [e] else [])
 
 def sanitizeFrom (cfg : Cfg) : St → Stream → Except Err Stream
